@@ -618,22 +618,24 @@ def has_kind(d: Any, pred) -> bool:
 class C15(Prop):
     pid = "C15"
     manifest = dict(
-        technique='Lean 4 theorems by structural induction over ALL JSON documents (mutual recursion over nested arrays/objects): json_to_cel = kind-directed specification, encode∘json_to_cel = id, navigation commutes with conversion for every valid path, base64 round trip for every byte string; the isinstance ladders of json_to_cel / to_python / default, the wrapper base classes and valid_key_type regenerated from the source + bridge (bool tested before int); differential correspondence + independent oracle on generated documents, paths and CEL values through both runners',
-        text='proof: for every document with int64 integers the model of adapter.json_to_cel (walking the ladder regenerated from adapter.py) yields the corresponding CEL types at every depth (booleans never integers), CELJSONEncoder writes back the original document, every valid .f / ["k"] / [i] path reaches the conversion of the same element, and base64 decoding inverts the encoder for all byte strings; float/string text is json\'s (trusted, corresponded)',
-        note='Lean kernel; standard axioms; ladder extractor; json text formatting/parsing, CPython dict/str/float, datetime.strftime, base64 compared through correspondence; evaluator navigation hand-modelled and tied by correspondence; lark',
+        technique='Lean 4 theorems by structural induction over ALL JSON documents (mutual recursion over nested arrays/objects): json_to_cel = kind-directed specification, encode∘json_to_cel = id, navigation commutes with conversion for every valid path, base64 round trip for every byte string; over ALL CEL values (any nesting, bool/int/uint/string keys): CELJSONEncoder = kind-directed specification (booleans true/false in every position, timestamps/durations/bytes as text at any depth); int(total_seconds()) through an exact binary64 model = truncation toward zero for every |d| < 2^34 s; the isinstance ladders of json_to_cel / to_python / default (normalised: early returns, loops vs comprehensions, aliases, hoisted sub-expressions, one-expression helpers), encode, CELJSONDecoder.decode, DurationType.__str__, the wrapper base classes and valid_key_type regenerated from the source + bridge (bool tested before int); differential correspondence + independent oracle on generated documents, paths and CEL values through both runners',
+        text='proof: for every document with int64 integers the model of adapter.json_to_cel (walking the ladder regenerated from adapter.py) yields the corresponding CEL types at every depth (booleans never integers), CELJSONEncoder writes back the original document, every valid .f / ["k"] / [i] path reaches the conversion of the same element, base64 decoding inverts the encoder for all byte strings, every well-formed CEL value encodes to its kind-directed document, and the seconds text of a duration is its exact truncation below 2^34 s (the float quotient modelled exactly beyond); float/string text is json\'s (trusted, corresponded)',
+        note='Lean kernel; standard axioms; ladder extractor with a meaning-preserving normaliser; json text formatting/parsing, CPython dict/str/float, datetime.strftime, base64 compared through correspondence; evaluator navigation hand-modelled and tied by correspondence; lark',
         ref='DESIGN.md §5 C15')
     lean_targets = ["Cel.Props.C15", "Cel.Bridge.Json"]
     audit_namespaces = ["Cel.Props.C15", "Cel.Bridge"]
     gen_names = ["JsonLadder"]
     trusted = ["`json` (text formatting of floats/strings, parsing, the encoder's own isinstance ladder as modelled in jsonEnc), CPython dict ordering and str/int equality",
-               "`datetime.strftime` and `timedelta.total_seconds` (modelled by tsStr / durStr; durations beyond 2^34 s with a fractional part are outside the model)",
+               "`datetime.strftime` (modelled by tsStr) and `timedelta.total_seconds` being the correctly rounded binary64 quotient µs/10^6 (modelled exactly by Cel.Time.totalSeconds, compared over the whole CEL duration range)",
                "`base64.b64encode` (modelled by b64encode, proved against its decoder, compared on generated byte strings)",
                "Evaluator.member_dot / member_index and the transpiled equivalents are hand-modelled (navCel) and tied by correspondence on both runners; lark parsing of the generated path expressions"]
     rule = ("random JSON documents (depth<=6; null/bool/int incl. int64 edges/float incl. -0.0, subnormals, 1e308/str incl. astral, control, quote "
             "characters/arrays/objects with keys from an adversarial pool incl. look-alikes, empty and reserved words) + exact-depth chains; each document: "
             "round trip through json_to_cel + CELJSONEncoder + json.loads, converted value with exact classes, the CELJSONDecoder path, and its valid paths "
             "(all if <=8, else a sample) evaluated as CEL on both runners, plus a few invalid paths; CEL values with timestamps/durations/bytes/uints and "
-            "non-string keys through the encoder; byte strings through base64; one instance per class through the ladder. "
+            "non-string keys through the encoder; byte strings through base64; one instance per class through the ladder; systematic families: arrays over every "
+            "ordered pair/triple of scalar kinds (bare and nested), every scalar in every one- and two-level position (JSON side and CEL side), durations on a grid "
+            "sign x whole seconds (0 .. 2^38, around 2^34) x sub-second part, fractional durations over the whole CEL range. "
             "non-trivial = distinct case whose document contains a bool, a float, a non-ASCII/control character or is nested >= 2 deep; a path of >= 2 steps; any enc/b64/ladder case")
 
     # ---- generation --------------------------------------------------------------------------------
